@@ -40,6 +40,12 @@ def garg(I, inst, callee, i):
     return {"k": "other", "s": "?"}
 
 
+def pointee_ref(x):
+    if isinstance(x, tuple) and x and x[0] in ("ref", "ptr", "slice"):
+        return x
+    return ("ref", (("D", h(x)), ()))
+
+
 def leaf_or_tree(I, st, v):
     """value behind a reference argument"""
     p = ref_path(v)
@@ -141,18 +147,21 @@ def apply(I, st, inst, node, nidx, callee, args, term, dty, line):
         return r if name == "eq" else ("not", r)
 
     # ---------------------------------------------------------------- pointer wrappers (identity on the pointee)
-    if path in ("core::ptr::NonNull::<T>::as_ref", "core::ptr::NonNull::<T>::as_mut", "core::ptr::NonNull::<T>::as_ptr",
-                "core::ptr::NonNull::<T>::new_unchecked", "core::ptr::NonNull::<T>::cast",
+    if path in ("core::ptr::NonNull::<T>::as_ref", "core::ptr::NonNull::<T>::as_mut"):
+        x = leaf_or_tree(I, st, args[0])
+        return pointee_ref(x)
+    if path in ("core::ptr::NonNull::<T>::as_ptr", "core::ptr::NonNull::<T>::cast"):
+        v = args[0]
+        if isinstance(v, Tree):
+            v = I.load(st, v.path, None)
+        v = pointee_ref(v)
+        if name == "cast" and isinstance(v, tuple) and v and v[0] == "ptr":
+            return ("ptr", v[1], v[2], ty_str(garg(I, inst, callee, 1)))
+        return v
+    if path in ("core::ptr::NonNull::<T>::new_unchecked",
                 "core::mem::ManuallyDrop::<T>::new", "core::mem::MaybeUninit::<T>::assume_init",
                 "core::mem::ManuallyDrop::<T>::into_inner", "core::mem::MaybeUninit::<T>::new"):
         v = args[0]
-        if name in ("as_ref", "as_mut") and isinstance(v, tuple) and v and v[0] == "ref" and v[1][0][0] == "L":
-            # receiver passed by reference to a local holding the NonNull: look through
-            lv = st.env.get(v[1])
-            if lv is not None:
-                v = lv
-        if name == "cast" and isinstance(v, tuple) and v and v[0] == "ptr":
-            return ("ptr", v[1], v[2], ty_str(garg(I, inst, callee, 1)))
         if name in ("new_unchecked",):
             E("NONNULL_UNCHECKED", ptr=h(v))
         return v
